@@ -45,7 +45,39 @@ def leaves_text(stmts):
     return ''.join(out)
 
 
+def firstcall():
+    """deeprun.py firstcall <limit> <frames> <repo>: the FIRST library call of the process is made `frames` deep
+    under recursion limit `limit` (little or no headroom left); then an ordinary call with a generous limit"""
+    limit, n = int(sys.argv[2]), int(sys.argv[3])
+    sys.path.insert(0, sys.argv[4])
+    import sqlparse
+    from sqlparse.exceptions import SQLParseError
+
+    def deep(k, f):
+        return f() if k == 0 else deep(k - 1, f)
+    out = {'kind': 'firstcall', 'depth': n, 'entry': 'parse', 'limit': limit, 'outcome': 'ok', 'roundtrip': True, 'later': 'ok'}
+    sys.setrecursionlimit(limit)
+    try:
+        deep(n, lambda: sqlparse.parse('select 1'))
+    except SQLParseError:
+        out['outcome'] = 'SQLParseError'
+    except RecursionError:
+        out['outcome'] = 'ok'       # the CALLER's own frames overflowed before the library was entered: not the library's
+    except BaseException as ex:  # noqa
+        out['outcome'] = type(ex).__name__
+    sys.setrecursionlimit(3000)
+    try:
+        toks = [(str(t.ttype), t.value) for t in sqlparse.parse('select 1')[0].flatten()]
+        if toks != [('Token.Keyword.DML', 'select'), ('Token.Text.Whitespace', ' '), ('Token.Literal.Number.Integer', '1')]:
+            out['later'] = 'differs'
+    except BaseException as ex:  # noqa
+        out['later'] = type(ex).__name__
+    print('@@' + json.dumps(out), flush=True)
+
+
 def main():
+    if sys.argv[1] == 'firstcall':
+        return firstcall()
     limit = int(sys.argv[1])
     cases = json.loads(sys.argv[2])
     sys.path.insert(0, sys.argv[3])
@@ -79,12 +111,20 @@ def main():
         except BaseException as ex:  # noqa
             out['outcome'] = type(ex).__name__
         finally:
-            sys.setrecursionlimit(3000)
-        try:
-            if (sqlparse.split(ref), sqlparse.format(ref, reindent=True)) != pristine:
-                out['later'] = 'differs'
-        except BaseException as ex:  # noqa
-            out['later'] = type(ex).__name__
+            pass
+        # "a later call on ordinary input still works": first under the SAME recursion limit (what a process that set
+        # its limit once does), then with a generous one
+        for lim2 in (limit, 3000):
+            sys.setrecursionlimit(lim2)
+            try:
+                if (sqlparse.split(ref), sqlparse.format(ref, reindent=True)) != pristine:
+                    out['later'] = 'differs'
+            except BaseException as ex:  # noqa
+                out['later'] = type(ex).__name__
+            finally:
+                sys.setrecursionlimit(3000)
+            if out['later'] != 'ok':
+                break
         print('@@' + json.dumps(out), flush=True)
 
 
